@@ -310,7 +310,7 @@ func H_C18_window() {
 		return
 	}
 	now := uint32(vNow())
-	vAssume(s.Inception <= s.Expiration)
+	// no order is assumed between inception and expiration: an inverted pair denotes an empty window
 	inside := s.Inception <= now && now <= s.Expiration
 	var keyOwner string
 	same := false
